@@ -31,6 +31,13 @@ TD32_REPS = [datetime.timedelta(milliseconds=1234), datetime.timedelta(0), datet
 TD64_REPS = [datetime.timedelta(milliseconds=1234), datetime.timedelta(0), datetime.timedelta(milliseconds=-1),
              datetime.timedelta(milliseconds=2**31), datetime.timedelta(milliseconds=2**53 + 1),
              datetime.timedelta(milliseconds=-(2**53) - 1), datetime.timedelta(milliseconds=86399999999999999)]
+# wire values a Kafka peer may send that datetime cannot hold (kept as raw millisecond counts)
+class RawMillis(int):
+    """a wire millisecond count with no Python time representation"""
+
+
+TD64_WIRE_ONLY = [RawMillis(2**62), RawMillis(-(2**63))]
+DT_WIRE_ONLY = [RawMillis(253402300800000), RawMillis(2**63 - 1)]
 DT_REPS = [EPOCH + datetime.timedelta(seconds=1577836800), EPOCH, EPOCH + datetime.timedelta(milliseconds=1500),
            EPOCH + datetime.timedelta(milliseconds=1), EPOCH + datetime.timedelta(milliseconds=65536002),
            EPOCH + datetime.timedelta(milliseconds=253402300799999)]
@@ -109,7 +116,7 @@ class Builder:
     shape variables (dry run for the schedule)."""
 
     def __init__(self, c: Ctx | None, shape=None, *, regions=REGIONS_QUICK, wire=False, max_array=2,
-                 canonical_uuid=True, finite_float=True, time_symbolic=False, prefix="x"):
+                 canonical_uuid=True, finite_float=True, time_symbolic=False, prefix="x", wire_only_times=False):
         self.c = c
         self.shape = shape or {}
         self.trace = []  # (path, n_alternatives)
@@ -120,6 +127,7 @@ class Builder:
         self.canonical_uuid = canonical_uuid
         self.finite_float = finite_float
         self.time_symbolic = time_symbolic
+        self.wire_only_times = wire_only_times
         self.extras = None
         self.prefix = prefix
         if wire:
@@ -201,12 +209,16 @@ class Builder:
             return f
         if kt in ("timedelta_i32", "timedelta_i64"):
             reps = TD32_REPS if kt == "timedelta_i32" else TD64_REPS
-            if not self.wire:
-                reps = reps[:4] if kt == "timedelta_i32" else reps[:4]
+            if not (self.wire or self.time_symbolic):
+                reps = reps[:4]
+            elif self.wire_only_times and kt == "timedelta_i64":
+                reps = reps + TD64_WIRE_ONLY
             k = self.alt(path + "#t", len(reps))
             return reps[k]
         if kt == "datetime_i64":
             reps = DT_REPS if self.wire or self.time_symbolic else DT_REPS[:4]
+            if self.wire_only_times:
+                reps = reps + DT_WIRE_ONLY
             k = self.alt(path + "#t", len(reps))
             return reps[k]
         raise NotImplementedError(kt)
@@ -238,11 +250,19 @@ class Builder:
         forced = []
         for f in dataclasses.fields(cls):
             fpath = f"{path}.{f.name}"
+            sent = 0
             if self.wire and "tag" in f.metadata:
-                # presence: 0 = elided iff default (canonical), 1 = always sent
-                if self.alt(fpath + "#sent", 2) == 1:
+                # presence: 0 = elided iff default (canonical), 1 = always sent (symbolic value),
+                # 2 = the default value itself sent explicitly
+                sent = self.alt(fpath + "#sent", 3)
+                if sent:
                     forced.append(f.name)
-            kw[f.name] = self.field_value(cls, f, fpath)
+            if sent == 2:
+                from .kref import implicit_default
+
+                kw[f.name] = implicit_default(cls, f)
+            else:
+                kw[f.name] = self.field_value(cls, f, fpath)
         unknown = 0
         if self.wire and cls.__flexible__:
             unknown = self.alt(path + "#unk", 3 if self.max_array >= 2 else 2)
@@ -271,8 +291,12 @@ class Builder:
 
 
 def trace_shape(cls, shape, **opts):
+    """cls: an entity class, or a callable build(builder) that builds several entities"""
     b = Builder(None, shape, **opts)
-    b.entity(cls)
+    if isinstance(cls, type):
+        b.entity(cls)
+    else:
+        cls(b)
     return b.trace
 
 
@@ -394,6 +418,8 @@ def to_jsonable(x):
         return {"__entity__": class_id(type(x)), "fields": {f.name: to_jsonable(getattr(x, f.name)) for f in dataclasses.fields(x)}}
     if isinstance(x, enum.Enum):
         return {"__enum__": f"{type(x).__module__}:{type(x).__qualname__}", "value": int(x.value)}
+    if type(x) is RawMillis:
+        return {"__rawms__": int(x)}
     if isinstance(x, str) and len(x) > 64 and len(set(x)) == 1:
         return {"__str_rep__": x[0], "n": len(x)}
     if isinstance(x, bool) or x is None or isinstance(x, (int, str)):
@@ -436,6 +462,8 @@ def from_jsonable(j):
             return struct.unpack(">d", bytes.fromhex(j["__f64__"]))[0]
         if "__bytes__" in j:
             return bytes.fromhex(j["__bytes__"])
+        if "__rawms__" in j:
+            return RawMillis(j["__rawms__"])
         if "__str_rep__" in j:
             return j["__str_rep__"] * j["n"]
         if "__bytes_rep__" in j:
